@@ -117,6 +117,33 @@ def pmap_processes(fn, items, workers=NPROC):
         return list(ex.map(fn, items, chunksize=4))
 
 
+def run_repeated(job):
+    """job = (exe, scratch, idx, argv, save, reps, env); `{out}` in argv is a fresh directory per repetition.
+    -> list of observations (rc, stdout, stderr, {problem file: bytes}) for `reps` fresh processes"""
+    exe, scratch, idx, argv, save, reps, env = job
+    import shutil
+    obs = []
+    for k in range(reps):
+        d = os.path.join(scratch, f"c{idx}_{k}")
+        os.makedirs(d)
+        a = [x.replace("{out}", d) for x in argv]
+        e = dict(env or {})
+        if "FAKE_VAMPIRE_DIR" in e:
+            e["FAKE_VAMPIRE_DIR"] = d
+        rr = run([exe] + a, env=e or None, timeout=60)
+        files = {}
+        if save:
+            for fn in sorted(os.listdir(d)):
+                if fn.endswith(".p"):
+                    files[fn] = open(os.path.join(d, fn), "rb").read()
+        # scratch paths differ between repetitions: normalise them in the streams
+        norm = lambda b: b.replace(d.encode(), b"<OUT>")
+        obs.append((rr.rc if not rr.timed_out else "timeout", norm(rr.out), norm(rr.err), files))
+        shutil.rmtree(d, ignore_errors=True)
+    return obs
+
+
+
 def rng(ctx, salt):
     return random.Random(f"{ctx.seed}/{ctx.prop}/{salt}")
 
